@@ -11,6 +11,13 @@ func (rt *runtime) cmplEvaluateNodeProgram(node *nodeProgram, eval bool) Value {
 	}
 	rt.cmplFunctionDeclaration(node.functionList)
 	rt.cmplVariableDeclaration(node.varList)
+	if eval {
+		// Eval code runs in the scope of its caller: while it runs the frame's
+		// positions refer to the eval text, afterwards to the caller's file again.
+		scope := rt.scope
+		previous := scope.frame.file
+		defer func() { scope.frame.file = previous }()
+	}
 	rt.scope.frame.file = node.file
 	result := rt.cmplEvaluateNodeStatementList(node.body)
 	if result.kind == valueEmpty {
